@@ -929,6 +929,14 @@ impl MachineState {
                     }
                 }
                 (HeapCellValueTag::Str, s) => {
+                    // only '.'/2 is a list cell; any other structure does not unify with a string
+                    let (name, arity) = cell_as_atom_cell!(self.heap[s]).get_name_and_arity();
+
+                    if name != atom!(".") || arity != 2 {
+                        self.fail = true;
+                        break;
+                    }
+
                     let cell = self.store(self.deref(self.heap[s+1]));
 
                     if let Some(d) = cell.as_char() {
